@@ -138,6 +138,10 @@ def judge(ctx, idx, case):
                 break
         rejudge = lambda c: problems_xml(common.build(c["ops"]).doc, force, c["dest"])[0]
     common.tally_doc(ctx, doc)
+    if not problems and getattr(st, "intent_problems", None):
+        # the text is faithful to a document that does not declare what its constructor was given: the reader of the text gets other URIs
+        # than the program stated
+        problems = ["%s; the emitted %s therefore denotes other URIs than the program stated" % (st.intent_problems[0], case["fmt"])]
     if case["fmt"] == "json" and not problems and scope_problems(jnotes):
         fid = findings.bundle_scope_finding(ID, st, jnotes)
         if fid:
